@@ -272,3 +272,149 @@ def oracle_c20(groups):
                     return g[j] + 2, 'the %s differs between read_string and %s for the same %d bytes' % (what, ops[g[j]].split(' ')[0], (len(ops[g[0]]) - 12) // 2)
         return None
     return oracle
+
+# ------------------------------------------------------------------ C18: documented token definitions as an independent tokenizer
+
+import re as _r
+_CI = lambda w: b''.join(b'[' + bytes([c]).upper() + bytes([c]).lower() + b']' for c in w)
+_INITIAL = [
+    (1, _r.compile(rb'#|//'), 'SLC'), (4, _r.compile(rb'/\*'), 'MLC'), (8, _r.compile(rb'"'), 'STRING'),
+    (22, _r.compile(rb'[ \t]*@include[ \t]+"'), 'INCLUDE-BOL'),
+    (28, _r.compile(rb'[\n\r\f\a\b\v]'), None), (29, _r.compile(rb'[ \t]+'), None),
+    (30, _r.compile(rb'=|:'), 266), (31, _r.compile(rb','), 272), (32, _r.compile(rb'\{'), 273), (33, _r.compile(rb'\}'), 274),
+    (34, _r.compile(_CI(b'true')), 258), (35, _r.compile(_CI(b'false')), 258),
+    (36, _r.compile(rb'[A-Za-z*][-A-Za-z0-9_*]*'), 265),
+    (37, _r.compile(rb'[-+]?[0-9]*\.[0-9]*(?:[eE][-+]?[0-9]+)?'), 263), (37, _r.compile(rb'[-+]?[0-9]+(?:\.[0-9]*)?[eE][-+]?[0-9]+'), 263),
+    (38, _r.compile(rb'[-+]?[0-9]+'), 'INT'), (39, _r.compile(rb'[-+]?[0-9]+LL?'), 'INT64'),
+    (40, _r.compile(rb'0[Xx][0-9A-Fa-f]+'), 'HEX'), (41, _r.compile(rb'0[Xx][0-9A-Fa-f]+LL?'), 'HEX64'),
+    (42, _r.compile(rb'\['), 268), (43, _r.compile(rb'\]'), 269), (44, _r.compile(rb'\('), 270), (45, _r.compile(rb'\)'), 271),
+    (46, _r.compile(rb';'), 275), (47, _r.compile(rb'.'), 276)]
+_ESC = {b'a': 7, b'b': 8, b'n': 10, b'r': 13, b't': 9, b'v': 11, b'f': 12, b'\\': 92, b'"': 34}
+_STRING = [(9, _r.compile(rb'[^"\\]+'), 'run')] + [(10 + i, _r.compile(b'\\\\' + _r.escape(k)), v) for i, (k, v) in enumerate(_ESC.items())] + \
+          [(19, _r.compile(rb'\\[Xx][0-9A-Fa-f]{2}'), 'hex'), (20, _r.compile(rb'\\'), 92), (21, _r.compile(rb'"'), 'end')]
+_INCLUDE = [(23, _r.compile(rb'[^"\\]+'), 'run'), (24, _r.compile(rb'\\\\'), 92), (25, _r.compile(rb'\\"'), 34), (26, _r.compile(rb'\\'), 92), (27, _r.compile(rb'"'), 'end')]
+_SLC = [(2, _r.compile(rb'\n'), 'INITIAL'), (3, _r.compile(rb'.'), None)]
+_MLC = [(5, _r.compile(rb'\*/'), 'INITIAL'), (6, _r.compile(rb'.'), None), (7, _r.compile(rb'\n'), None)]
+
+def _numeric_token(kind, lex):
+    exp = expected_literal(lex)
+    if exp is None or exp == 'not-a-literal':
+        return 277
+    return {2: {0: 259, 1: 260}, 3: {0: 261, 1: 262}}[exp[0]][exp[1]]
+
+def spec_lex(text):
+    """token stream the documented definitions prescribe: longest match, earliest rule on ties.
+    Numeric values and line numbers are left to C08 / the model correspondence."""
+    out = []
+    pos = 0; mode = 'INITIAL'; bol = True; acc = b''
+    n = len(text)
+    guard = 0
+    while pos < n and guard < 200000:
+        guard += 1
+        rules = {'INITIAL': _INITIAL, 'STRING': _STRING, 'INCLUDE': _INCLUDE, 'SLC': _SLC, 'MLC': _MLC}[mode]
+        best = None
+        for num, rx, act in rules:
+            if act == 'INCLUDE-BOL' and not bol:
+                continue
+            m = rx.match(text, pos)
+            if m and m.end() > pos and (best is None or m.end() - pos > best[0]):
+                best = (m.end() - pos, num, act)
+        if best is None:
+            out.append('NO-RULE'); break
+        ln, num, act = best
+        lex = text[pos:pos + ln]
+        pos += ln
+        bol = lex.endswith(b'\n')
+        if mode == 'INITIAL':
+            if act in ('SLC', 'MLC', 'STRING'):
+                mode = act
+            elif act == 'INCLUDE-BOL':
+                mode = 'INCLUDE'
+            elif act is None:
+                pass
+            elif act in ('INT', 'INT64', 'HEX', 'HEX64'):
+                out.append(str(_numeric_token(act, lex)))
+            elif act == 263:
+                out.append('263' if expected_literal(lex) is not None else '277')
+            elif act == 265:
+                out.append('265:' + hexs(lex))
+            else:
+                out.append(str(act))
+        elif mode in ('SLC', 'MLC'):
+            if act == 'INITIAL':
+                mode = 'INITIAL'
+        else:
+            if act == 'run':
+                acc += lex.split(b'\x00')[0] if b'\x00' in lex else lex
+                if b'\x00' in lex:
+                    acc += b'\x00'      # the C string ends here: later appends are invisible
+            elif act == 'hex':
+                acc += bytes([int(lex[2:], 16)])
+            elif act == 'end':
+                val = acc.split(b'\x00')[0]
+                acc = b''
+                if mode == 'STRING':
+                    out.append('264:' + hexs(val)); mode = 'INITIAL'
+                else:
+                    out.append('277')            # no such file: "cannot open include file"; the mode stays INCLUDE
+            else:
+                acc += bytes([act])
+    out.append('eof')
+    return out
+
+def norm_lex(line):
+    toks = []
+    for t in line.split(' '):
+        t = _r.sub(r'@\d+$', '', t)
+        m = _r.match(r'(\d+):(.*)', t)
+        if m and m.group(1) in ('258', '259', '260', '261', '262', '263'):
+            t = m.group(1)
+        toks.append(t)
+    return toks
+
+def sess_c18(texts, expect):
+    def fn(impl, rng, stats):
+        impl.do('init')
+        for t in texts:
+            if b'\x00' in t:
+                continue
+            impl.do('lex ' + hexs(t))
+            expect[len(impl.ops) - 1] = t
+            stats['c18:lex'] = stats.get('c18:lex', 0) + 1
+    return fn
+
+def oracle_c18(expect):
+    def oracle(ops, outs):
+        for i, t in expect.items():
+            if i >= len(outs):
+                continue
+            want = spec_lex(t)
+            got = norm_lex(outs[i])
+            if got != want:
+                k = next((j for j, (a, b) in enumerate(zip(got, want)) if a != b), min(len(got), len(want)))
+                return i, 'tokenization of %r deviates from the documented token definitions at token %d: got %s, documented %s' % (
+                    t[:80], k, got[k:k + 3], want[k:k + 3])
+        return None
+    return oracle
+
+C18_FRAG = [b'true', b'TRUE', b'truex', b'false', b'fAlSe0', b'name', b'a-b_c*', b'*', b'1', b'-1', b'+05', b'1L', b'1LL', b'1LLL', b'0x1F', b'0X1fL', b'0x', b'0xG',
+            b'1.5', b'.5', b'5.', b'.', b'1e5', b'1e', b'1e+', b'1.e5', b'-.5e-3', b'1.5L', b'"s"', b'"a\\n\\x41\\q\\""', b'"', b'"\\', b'""', b'=', b':', b',', b';', b'{', b'}',
+            b'[', b']', b'(', b')', b'#c', b'//c', b'/*c*/', b'/*', b'*/', b'/', b'\n', b' ', b'\t', b'\r', b'\f', b'\a', b'\b', b'\v', b'@', b'@include "', b'\n@include "x"',
+            b'\n  @include\t"', b'\\', b'-', b'+', b'_', b'\x01', b'\x7f', b'\x80', b'\xff', b'e', b'L', b'x', b'0', b'00', b'08', b'9223372036854775808', b'0xFFFFFFFFF',
+            b'"\\a\\b\\v\\f\\t\\r"', b'"\\x4"', b'"\\xgg"', b'"\\X41"']
+
+def c18_texts(rng, n):
+    out = []
+    for _ in range(n):
+        k = rng.weighted([(1, 2), (2, 4), (3, 4), (5, 3), (10, 2), (30, 1)])
+        mode = rng.below(4)
+        if mode == 0:
+            t = b''.join(rng.choice(C18_FRAG) for _ in range(k))
+        elif mode == 1:
+            t = b' '.join(rng.choice(C18_FRAG) for _ in range(k))
+        elif mode == 2:
+            t = bytes(rng.range(1, 255) for _ in range(k * 2))
+        else:
+            t = gen_text.mutate(rng, gen_text.rand_valid_text(rng))
+        out.append(t)
+    return out
